@@ -1561,6 +1561,9 @@ class Interp:
             if first.startswith('&'):
                 env = Ref([f], 0)
             return self.exec_body(b, name, [env] + list(args))
+        if type(f) is Adt and f.variant is not None and not f.fields and not f.name.startswith('{'):
+            # a tuple-variant constructor used as a function value (printed like a unit variant constant)
+            return Adt(f.name, f.variant, list(args))
         if type(f) is Adt and f.name == 'variant_ctor':
             return Adt(f.fields[0], f.fields[1], list(args))
         raise Unmodelled('call of value %r' % (f,))
